@@ -55,3 +55,30 @@ Print Assumptions C07_run_app.
 Print Assumptions C07_chunking.
 Print Assumptions C07_run_op_plain.
 Print Assumptions C07_train_app.
+
+
+(* ---- the same on the LOW-LEVEL model (model/ProxySem.v: explicit `_state_proxy` / clamp management) ----
+   Model._run over xs ++ ys from a state at rest is Model._run over xs followed by Model._run over ys: the first run
+   cleans its proxies (`finally: _clean_proxys`), the second reloads them from the states it finds
+   (`_load_proxys(keep=True)`), and that is what the uninterrupted run holds at that point (`_load_proxys()` after each
+   step).  Outputs are concatenated, the final environments agree node by node - proxies and clamps included - and a
+   failure in the first part stops there.  Proved through the refinement to ModelSem (proofs/Refine_proofs.v). *)
+From RV Require Import model.ProxySem proofs.Refine_proofs.
+Theorem C07_lowlevel_chunking {F : Type} `{Num F} (m : @model F) xs ys (el : @lenv F) :
+  NoDup (ids_of m) -> at_rest el ->
+  let '(e12, o12, ok12) := run_ll m (xs ++ ys) el in
+  let '(e1, o1, ok1) := run_ll m xs el in
+  if ok1 then let '(e2, o2, ok2) := run_ll m ys e1 in o12 = o1 ++ o2 /\ ok12 = ok2 /\ (forall n, e12 n = e2 n)
+  else o12 = o1 /\ ok12 = false /\ (forall n, e12 n = e1 n).
+Proof. exact (run_ll_app m xs ys el). Qed.
+
+Example C07_lowlevel_example :
+  let steps := map (fun x => ((fun n => match n with 0 => Some [x] | _ => None end), (fun _ : nat => @None (list Q)))) [1%Q; 2%Q; 3%Q] in
+  let m := mkModel [mkND 0 (kfwd (KFun 2 0)) None 1; mkND 1 (kfwd (KFbAdd 100)) (Some (FbNode 0)) 1]%Q
+                   (fun n => match n with 1 => [0] | _ => [] end) [1] in
+  let e0 : @lenv Q := inject (fun _ => mkNS [0%Q] []) in
+  (let '(e1, o1, _) := run_ll m (firstn 1 steps) e0 in let '(_, o2, ok) := run_ll m (skipn 1 steps) e1 in (o1 ++ o2, ok))
+  = ([[[2%Q]]; [[204%Q]]; [[406%Q]]], true).
+Proof. vm_compute. reflexivity. Qed.
+
+Print Assumptions C07_lowlevel_chunking.
